@@ -44,6 +44,7 @@ type Prog struct {
 	reachMu      sync.Mutex
 	genMu        sync.Mutex
 	nonNilGlobals map[*ssa.Global]bool // write-once package variables initialised with a non-nil value
+	constGlobals  map[*ssa.Global]*ssa.Const // write-once package variables initialised with a constant
 }
 
 func inScopePkg(path string) bool {
@@ -110,6 +111,27 @@ func loadProg(repo, contractsDir string) (*Prog, error) {
 		files: map[string]*ast.File{}, byPos: map[token.Pos]ast.Node{}, addrTaken: map[string][]*ssa.Function{},
 		implCache: map[string][]*ssa.Function{}, pkgByPath: map[string]*ssa.Package{}, src: map[string][]byte{}, repo: repo, reachCache: map[[2]*ssa.Function]bool{}}
 	all := ssautil.AllFunctions(prog)
+	// methods nobody calls are not "reachable" for AllFunctions: add every
+	// declared method of the analysed packages explicitly
+	for _, sp := range prog.AllPackages() {
+		if !inScopePkg(sp.Pkg.Path()) {
+			continue
+		}
+		for _, mem := range sp.Members {
+			tn, ok := mem.(*ssa.Type)
+			if !ok {
+				continue
+			}
+			for _, t := range []types.Type{tn.Type(), types.NewPointer(tn.Type())} {
+				ms := prog.MethodSets.MethodSet(t)
+				for i := 0; i < ms.Len(); i++ {
+					if fn := prog.MethodValue(ms.At(i)); fn != nil {
+						all[fn] = true
+					}
+				}
+			}
+		}
+	}
 	var fl []*ssa.Function
 	for f := range all {
 		if f.Pkg == nil && f.Parent() == nil && f.Synthetic == "" {
@@ -433,6 +455,7 @@ func (P *Prog) getTypeID(t types.Type) int {
 // variable are non-nil (DESIGN §2.2 "global ... write-once check").
 func (P *Prog) analyzeGlobals() {
 	P.nonNilGlobals = map[*ssa.Global]bool{}
+	P.constGlobals = map[*ssa.Global]*ssa.Const{}
 	bad := map[*ssa.Global]bool{}
 	for _, f := range P.inScope {
 		isInit := f.Name() == "init" && f.Signature.Recv() == nil && f.Parent() == nil
@@ -453,6 +476,15 @@ func (P *Prog) analyzeGlobals() {
 								}
 							case *ssa.MakeInterface, *ssa.Alloc, *ssa.MakeMap, *ssa.MakeChan, *ssa.MakeClosure, *ssa.Function, *ssa.MakeSlice:
 								okv = true
+							case *ssa.Const:
+								if !bad[g] && v.Value != nil {
+									if _, dup := P.constGlobals[g]; dup {
+										bad[g] = true
+									} else {
+										P.constGlobals[g] = v
+										continue
+									}
+								}
 							}
 						}
 						if okv && !bad[g] {
@@ -460,6 +492,7 @@ func (P *Prog) analyzeGlobals() {
 						} else {
 							bad[g] = true
 							delete(P.nonNilGlobals, g)
+							delete(P.constGlobals, g)
 						}
 						continue
 					}
@@ -476,6 +509,7 @@ func (P *Prog) analyzeGlobals() {
 						}
 						bad[g] = true
 						delete(P.nonNilGlobals, g)
+						delete(P.constGlobals, g)
 					}
 				}
 			}
